@@ -9,6 +9,9 @@
 (*   fail   0, or the initializer whose materialisation raises,            *)
 (*          or Len(sizes)+1 when the model file cannot be written          *)
 (*   out    "returned" | "raised"                                          *)
+(*   pre    names of the files that existed in the destination directory   *)
+(*          before the save (re-save scenarios; <<>> for a first save)     *)
+(*   refused  save raised FileExistsError                                  *)
 (*   same   per initializer: value.const_value is the original object      *)
 (*          after save (returned or raised)                                *)
 (*   loaded FALSE when ir.load of the saved model raised                    *)
@@ -70,8 +73,17 @@ Diff(X) ==
 
 All(s) == \A j \in 1..Len(s) : s[j]
 
+\* the sharded raw writer refuses to touch an existing destination (_check_no_existing_shard_files): a re-save
+\* onto the names of an earlier save may raise FileExistsError - the model must still be restored
+MayRefuse(X) ==
+  /\ X.c.be = "raw" /\ X.c.lim # NoneV
+  /\ LET E == Layout(X.c, "design")
+         nm == ExpNames(X, E.nf)
+     IN  \E k \in 1..E.nf : \E j \in 1..Len(X.pre) : X.pre[j] = nm[k]
+
 Bad(X) ==
-  LET outcomeOK == IF X.fail = 0 THEN X.out = "returned" ELSE X.out = "raised"
+  LET outcomeOK == IF X.fail # 0 THEN X.out = "raised"
+                   ELSE X.out = "returned" \/ (X.out = "raised" /\ X.refused /\ MayRefuse(X))
       base == (IF All(X.same) THEN {} ELSE {"Restored"}) \cup (IF outcomeOK THEN {} ELSE {"Outcome"})
   IN  IF X.out # "returned" THEN base
       ELSE IF ~X.loaded THEN base \cup {"Loadable"}
